@@ -995,3 +995,88 @@ def shrink_candidates(program):
                 q = copy.deepcopy(program)
                 q['ops'][i][k]['layout'] = 'C'
                 yield q
+
+
+# --------------------------------------------------------------------------
+# fixed catalogue: every LAPACK call index of a set of fits fails once
+# --------------------------------------------------------------------------
+
+def _fixed_programs(tier):
+    rng = np.random.RandomState(8081)
+    g = catalogue.G(rng, [2, 3, 4], False)
+    progs = []
+    n_cfg = 2 if tier == 'quick' else 6
+    for kind in models.MIXTURES:
+        for _ in range(n_cfg):
+            op = gen_mixfit(g, kind)
+            op['iterations'] = min(op['iterations'], 4)
+            progs.append(op)
+    for _ in range(n_cfg * 3):
+        progs.append(gen_distfit(g))
+    return progs
+
+
+def _count_lapack(op):
+    program = {'prop': 'C08', 'ops': [dict(op, fault=None)],
+               'trainer_kwargs': {}, 'rng_seed': 1}
+    with seams.lapack_shim({}) as shim:
+        execute(program)
+    return dict(shim.counts)
+
+
+def _enum_lapack_worker(op, func, ks):
+    from . import driver
+    if 'ok' not in driver._INIT:
+        driver._worker_init()
+    out = []
+    for k in ks:
+        o = dict(op, fault={'kind': 'lapack', 'func': func, 'k': int(k)})
+        program = {'prop': 'C08', 'ops': [o], 'trainer_kwargs': {},
+                   'rng_seed': 1, 'tier': 'enum'}
+        r = execute(program)
+        out.append((func, k, r['violations'], r['counters'], program))
+    return out
+
+
+def _count_lapack_worker(op):
+    from . import driver
+    if 'ok' not in driver._INIT:
+        driver._worker_init()
+    return _count_lapack(op)
+
+
+def fixed_catalogue(tier, workers, log):
+    import time
+    from . import driver
+    t0 = time.time()
+    progs = _fixed_programs(tier)
+    violations = []
+    total = fired = absorbed = 0
+    per_func = {}
+    with driver.make_pool(workers) as pool:
+        counts = list(pool.map(_count_lapack_worker, progs))
+        futs = []
+        for op, cnt in zip(progs, counts):
+            for func, n in cnt.items():
+                if n:
+                    futs.append(pool.submit(_enum_lapack_worker, op, func,
+                                            list(range(n))))
+        for f in futs:
+            for func, k, viols, counters, program in f.result():
+                total += 1
+                per_func[func] = per_func.get(func, 0) + 1
+                fired += counters.get('fault_fired:lapack', 0)
+                absorbed += counters.get('probe:lapack_fault_absorbed_fit_returned', 0)
+                for v in viols:
+                    violations.append((-1, program, v))
+    log(f'# C08 fixed catalogue: {len(progs)} fits, every LAPACK call index '
+        f'failed once: {total} fault positions ({per_func}), {fired} fired, '
+        f'{absorbed} absorbed by a fallback and checked, '
+        f'{len(violations)} violations, {time.time() - t0:.1f}s')
+    return {'coverage': {'lapack_fault_enumeration': {
+        'exhaustive_over': 'every call index of numpy.linalg.{eigh,eig,solve,'
+                           'lstsq} issued from pb_bss during each catalogue fit',
+        'fits': len(progs), 'fault_positions': total, 'per_function': per_func,
+        'fired': fired, 'absorbed_by_fallback_and_checked': absorbed,
+        'wall_s': round(time.time() - t0, 1)}},
+        'violations': violations}
